@@ -2,10 +2,12 @@ package props
 
 import (
 	"bytes"
+	"crypto/rsa"
 	"crypto/tls"
 	"crypto/x509"
 	"encoding/base64"
 	"encoding/xml"
+	"errors"
 	"fmt"
 	dsig "github.com/russellhaering/goxmldsig"
 	"math"
@@ -23,7 +25,7 @@ import (
 
 func init() {
 	register(&Prop{ID: "C19", Run: runC19, MinNontrivial: 300,
-		Rule:        "cases = (key configuration with an encryption key: 12 subsets of {enc field, enc setter, sign field, sign setter}, RSA/ECDSA signing setter) x SignAuthnRequests x SkipSignatureValidation x issuer/ACS/SLO strings from the value classes x clocks in several zones x validity hours {-5,0,1,24,168,8760,1e5,2.5e6, +-2562047, +-2562048, +-3e6, -5e6, +-1e7, 6e7, MinInt64, MinInt64+1}; oracle on Metadata() and MetadataWithSLO(h): entityID, POST endpoints, flags, validUntil == now.UTC()+7d or +h hours, signing descriptor verifies a message the SP just signed (C13 oracle), encryption descriptor's key decrypts an IdP-signed assertion encrypted to it under each listed method (C11 oracle through ValidateEncodedResponse), xml.Marshal output well-formed and round-trips to equal values; non-trivial = both metadata variants were produced; distinct by parameter tuple; every returned descriptor is scribbled over in place after its case; class bare-signing-key (signer without certificate: a published signing key must be the key that signs); arbitrary IdentityProviderSSO/SLOBinding values; SP clocks in the last week of the certificates' validity; bundle key stores (every published certificate is checked); metadata requested once before the final keys are set",
+		Rule:        "cases = (key configuration with an encryption key: 12 subsets of {enc field, enc setter, sign field, sign setter}, RSA/ECDSA signing setter) x SignAuthnRequests x SkipSignatureValidation x issuer/ACS/SLO strings from the value classes x clocks in several zones x validity hours {-5,0,1,24,168,8760,1e5,2.5e6, +-2562047, +-2562048, +-3e6, -5e6, +-1e7, 6e7, MinInt64, MinInt64+1}; oracle on Metadata() and MetadataWithSLO(h): entityID, POST endpoints, flags, validUntil == now.UTC()+7d or +h hours, signing descriptor verifies a message the SP just signed (C13 oracle), encryption descriptor's key decrypts an IdP-signed assertion encrypted to it under each listed method (C11 oracle through ValidateEncodedResponse), xml.Marshal output well-formed and round-trips to equal values; non-trivial = both metadata variants were produced; distinct by parameter tuple; every returned descriptor is scribbled over in place after its case; class bare-signing-key (signer without certificate: a published signing key must be the key that signs); arbitrary IdentityProviderSSO/SLOBinding values; SP clocks in the last week of the certificates' validity; bundle key stores (every published certificate is checked); metadata requested once before the final keys are set; class flaky-key-store (field key stores that fail some calls: metadata may be refused, what is published names the right certificates); configured URLs with credentials, default ports, IPv6 / IDN hosts, dot segments",
 		Assumptions: []string{"configurations without any encryption key are outside the domain (Metadata returns an error: the encryption key is documented as required)", "XMLName fields are ignored when comparing the round trip"}})
 }
 
@@ -95,6 +97,7 @@ func descriptorCert(md *types.EntityDescriptor, use string) (string, []string, i
 func runC19(c *mon.Ctx) {
 	base := BaseTime(c.Seed)
 	runC19BareSigner(c, base)
+	runC19FlakyStores(c, base)
 	var kcs []KeyCfg
 	for _, k := range AllKeyCfgs() {
 		if k.EncField || k.EncSetter {
@@ -399,6 +402,76 @@ func Scribble(v reflect.Value) {
 
 // runC19BareSigner: the signing key is given through the setter as a bare signer without a certificate (next to an
 // ordinary encryption key pair). Whatever the metadata then says about signing, it must not name a key that does not sign.
+// flakyKeyStore fails the calls whose ordinal is in failOn (a key agent or HSM with a hiccup), and serves the pair otherwise.
+type flakyKeyStore struct {
+	c      *sim.Cert
+	calls  int
+	failOn map[int]bool
+}
+
+func (f *flakyKeyStore) GetKeyPair() (*rsa.PrivateKey, []byte, error) {
+	f.calls++
+	if f.failOn[f.calls] {
+		return nil, nil, errors.New("verif: key store temporarily unavailable")
+	}
+	return f.c.Key.RSA(), f.c.DER, nil
+}
+
+// runC19FlakyStores: a key store that fails now and then. Metadata may be refused while it does; metadata that is
+// handed out names, as signing key, the certificate of the key that signs - never another one.
+func runC19FlakyStores(c *mon.Ctx, base time.Time) {
+	n := c.N(80, 1500)
+	for k := 0; k < n; k++ {
+		cs := c.Begin("flaky-key-store", k)
+		if cs == nil {
+			continue
+		}
+		r := cs.Rand()
+		sp, _, _ := NewSP(base)
+		enc, sign := sim.Wide(sim.K("spenc"), base), sim.Wide(sim.K("spsign"), base)
+		fail := map[int]bool{}
+		for i := r.IntN(3); i >= 0; i-- {
+			fail[1+r.IntN(6)] = true
+		}
+		which := pick(r, []string{"signing-field", "encryption-field", "both"})
+		var encStore, signStore dsig.X509KeyStore = &RSAKeyStore{C: enc}, &RSAKeyStore{C: sign}
+		if which != "signing-field" {
+			encStore = &flakyKeyStore{c: enc, failOn: fail}
+		}
+		if which != "encryption-field" {
+			signStore = &flakyKeyStore{c: sign, failOn: fail}
+		}
+		sp.SPKeyStore, sp.SPSigningKeyStore = encStore, signStore
+		sp.SignAuthnRequests = true
+		cs.Desc("flaky=%s failing calls=%v", which, fail)
+		cs.Nontrivial(cs.Description())
+		published := 0
+		for round := 0; round < 4; round++ {
+			for vi, f := range []func() (*types.EntityDescriptor, error){sp.Metadata, func() (*types.EntityDescriptor, error) { return sp.MetadataWithSLO(24) }} {
+				var m *types.EntityDescriptor
+				var err error
+				pv, stack := mon.Guard(func() { m, err = f() })
+				if pv != nil {
+					cs.Violation("panic", "metadata panicked: %v\n%s", pv, trunc(stack, 1000))
+					continue
+				}
+				if err != nil || m == nil {
+					continue // refusing to publish while the store fails is fine
+				}
+				published++
+				name := []string{"Metadata", "MetadataWithSLO"}[vi]
+				if sc, _, ns := descriptorCert(m, "signing"); ns != 1 || sc != base64.StdEncoding.EncodeToString(sign.DER) {
+					cs.Violation("signing-descriptor-"+name, "%s (call round %d) with a key store that fails now and then: %d signing descriptors, the published certificate is not the signing store's", name, round, ns)
+				}
+				if ec, _, ne := descriptorCert(m, "encryption"); ne != 1 || ec != base64.StdEncoding.EncodeToString(enc.DER) {
+					cs.Violation("encryption-descriptor-"+name, "%s (call round %d) with a key store that fails now and then: %d encryption descriptors, the published certificate is not the encryption store's", name, round, ne)
+				}
+			}
+		}
+		cs.Outcome(fmt.Sprintf("published:%d", published))
+	}
+}
+
 func runC19BareSigner(c *mon.Ctx, base time.Time) {
 	n := c.N(60, 1000)
 	for k := 0; k < n; k++ {
